@@ -345,11 +345,13 @@ func (t *Thread) CallContext(def RuntimeContextDef, f func() error) (ctx Runtime
 	defer func() {
 		ctx = t.PopContext()
 		if r := recover(); r != nil {
-			t.closeStack.truncate(h) // No resources to run that, so just discard it.
 			termErr, ok := r.(ContextTerminationError)
 			if !ok {
+				// E.g. the thread is being closed: the pending to-be-closed
+				// values are dealt with when the thread ends.
 				panic(r)
 			}
+			t.closeStack.truncate(h) // No resources to run that, so just discard it.
 			err = termErr
 		}
 	}()
